@@ -84,10 +84,38 @@ def check(ctx):
         _step(ctx, cls)
 
 
+def constructor_rule(ctx, rule):
+    # C10-b (constructors): __init__ / __post_init__ leave the configuration as it was given - whatever they store into a
+    # configuration field is that field's own value (the analysis of the other methods starts from a symbolic object and
+    # does not run constructors, so this is the clause that covers them)
+    P = ctx.P
+    for cls in FAMILY:
+        ci = P.cls(RES + cls)
+        fields = set(ci.all_fields())
+        for name in CTOR:
+            m = ci.lookup(name)
+            if m is None:
+                continue
+            it, m, paths = method_paths(ctx, cls, name)
+            altered = []
+            for p in paths:
+                for e in self_events(p, ("store_attr",)):
+                    a = e.data["attr"]
+                    if a in fields and it.to_nf(e.data["value"]) != nf.sym("self." + a) and it.to_nf(e.data["value"]) != nf.sym(a):
+                        altered.append(f"self.{a} = {nf.show(it.to_nf(e.data['value']), 60)} (line {e.line})")
+            ctx.check(
+                not altered, rule, f"{RES}{cls}.{name}:configuration as given", m.where(),
+                "the constructor stores nothing into a configuration field but the value it was given",
+                signature="constructor alters " + ",".join(sorted({x.split(' ')[0] for x in altered})), stores=altered[:4],
+            )
+
+
 def family_rules(ctx, ids):
     """Typestate / effect rules over the reservoir family; `ids` maps clause letters to the rule ids to
     report under (a clause mapped to None is skipped) - C01 and C17 reuse clauses b and a."""
     P = ctx.P
+    if ids.get("b"):
+        constructor_rule(ctx, ids["b"])
     CACHE = cache_attribute(ctx)
     if CACHE is None:
         raise AnalysisError("recovery_factor no longer keeps its result on the object: the cache state machine has no cache")
